@@ -94,6 +94,7 @@ class _ScriptMixin:
         self.p_resubmit = settings.get("pResubmit", 0.0)
         self.max_batch = settings.get("maxBatch", 3)
         self.aggr = settings.get("aggr", 0.02)
+        self.p_int = settings.get("pIntPrice", 0.0)
         self.max_vol = settings.get("maxVol", 3)
         self.my_orders = []
         self.callbacks = []
@@ -123,6 +124,8 @@ class _ScriptMixin:
                         px = base * (1.0 + rng.gauss(0.0, self.aggr))
                         if px <= 0 or not math.isfinite(px):
                             px = base
+                        if self.p_int > 0 and rng.random() < self.p_int and px >= 1:
+                            px = int(round(px))     # a whole-number price written as a Python int
                         o = Order(agent_id=self.agent_id, market_id=m.market_id, is_buy=is_buy,
                                   kind=LIMIT_ORDER, volume=rng.randint(1, self.max_vol), price=px,
                                   ttl=rng.choice([None, 1, 2, 3, 8]))
